@@ -301,3 +301,99 @@ package fontscan
 //@   assert_at call Printf#1 : [steps-1-3-failed] noneCovers(fm, fm.candidates.withoutFallback, r) && noneCovers(fm, fm.candidates.withFallback, r) && noneCovers(fm, fm.candidates.manual, r)
 //@   assert_at call Printf#2 : [steps-1-4-failed] noneCovers(fm, fm.candidates.withoutFallback, r) && noneCovers(fm, fm.candidates.withFallback, r) && noneCovers(fm, fm.candidates.manual, r) && noneCovers(fm, scriptCandidates, r)
 //@   modifies unspecified
+//
+// ---------------------------------------------------------------------------------------------
+// Property C16: "reading any truncated or corrupted cache file yields an error or a well-formed index and never a panic".
+// Decoder totality: `data` is arbitrary; every index/slice operation in the decoders is an obligation. Each decoder
+// reports how many bytes it consumed (never more than it was given) and reads nothing on error.
+//@ trusted std:errors.New
+//@   params text
+//@   ensures [non-nil] result != nil
+//@   modifies nothing
+//
+//@ trusted std:math.Float32frombits
+//@   params b
+//@   modifies nothing
+//@ trusted std:math.Float32bits
+//@   params f
+//@   modifies nothing
+//
+//@ func deserializeString C16
+//@   mode bv
+//@   ensures [consumed] implies(result1 == nil, 2 <= result0 && result0 <= len(data))
+//@   ensures [local-exact] implies(result1 == nil, result0 == 2+int(uint16(data[0])<<8|uint16(data[1])))
+//@   ensures [error] implies(result1 != nil, result0 == 0)
+//@   ensures [rejects-short] implies(len(data) < 2, result1 != nil)
+//@   modifies *s
+//
+//@ func deserializeAspectFrom C16
+//@   mode bv
+//@   ensures [consumed] implies(result1 == nil, result0 == 9 && 9 <= len(data))
+//@   ensures [error] implies(result1 != nil, result0 == 0 && len(data) < 9)
+//@   ensures [style-roundtrip] implies(result1 == nil, as.Style == font.Style(data[0]))
+//@   modifies *as
+//
+//@ func ScriptSet.deserializeFrom C16
+//@   mode bv
+//@   ensures [consumed] implies(result1 == nil, 1 <= result0 && result0 <= len(data))
+//@   ensures [local-exact] implies(result1 == nil, result0 == 1+4*int(data[0]) && len(*ss) == int(data[0]))
+//@   ensures [local-decoded] implies(result1 == nil, forall(i, 0, len(*ss), uint32((*ss)[i]) == uint32(data[1+4*i])<<24|uint32(data[2+4*i])<<16|uint32(data[3+4*i])<<8|uint32(data[4+4*i])))
+//@   ensures [error] implies(result1 != nil, result0 == 0)
+//@   modifies *ss
+//@   loop 1 invariant [v] len(v) == L && L == int(data[0]) && 1+4*L <= len(data) && fresh(v)
+//@   loop 1 invariant [decoded] forall(i, 0, rangeindex+1, uint32(v[i]) == uint32(data[1+4*i])<<24|uint32(data[2+4*i])<<16|uint32(data[3+4*i])<<8|uint32(data[4+4*i]))
+//
+//@ func LangSet.deserializeFrom C16
+//@   mode bv
+//@   ensures [consumed] implies(result1 == nil, result0 == 64 && 64 <= len(data))
+//@   ensures [error] implies(result1 != nil, result0 == 0 && len(data) < 64)
+//@   modifies *ls
+//
+//@ func RuneSet.deserializeFrom C16 C11
+//@   mode bv
+//@   ensures [consumed] implies(result1 == nil, 2 <= result0 && result0 <= len(data))
+//@   ensures [local-exact] implies(result1 == nil, result0 == 2+34*int(uint16(data[0])<<8|uint16(data[1])) && len(*rs) == int(uint16(data[0])<<8|uint16(data[1])))
+//@   ensures [error] implies(result1 != nil, result0 == 0)
+//@   modifies *rs
+//@   loop 1 invariant [v] len(v) == L && 0 <= L && L <= 65535 && 2+34*L <= len(data) && fresh(v)
+//@   loop 2 invariant [v] len(v) == L && 0 <= L && L <= 65535 && 2+34*L <= len(data) && fresh(v) && 0 <= i && i < L && sameslice(slice, data[2+34*i+2:])
+//
+//@ func Footprint.deserializeFrom C16
+//@   mode int
+//@   ensures [consumed] implies(result1 == nil, 0 < result0 && result0 <= len(data))
+//@   ensures [error] implies(result1 != nil, result0 == 0)
+//@   modifies unspecified
+//
+//@ func deserializeFootprints C16
+//@   mode int
+//@   ensures [error-or-list] implies(err != nil, len(out) == 0)
+//@   modifies unspecified
+//@   loop 1 invariant [progress] 0 <= totalRead && totalRead <= len(src)
+//
+//@ func fileFootprints.deserializeFrom C16
+//@   mode int
+//@   modifies unspecified
+//
+// Incremental refresh: an indexed entry is reused only if the file's modification time is exactly the indexed one;
+// whatever entry is appended carries the file's current modification time (so a replaced file is rescanned).
+//@ opaque mtimeOf(info os.FileInfo) timeStamp
+//@ trusted newTimeStamp
+//@   ensures [mtime] result == mtimeOf(file)
+//@   modifies nothing
+//@ trusted newFootprintFromLoader
+//@   modifies all(byte); all([2]rune)
+//@ trusted std:os.Open
+//@   params name
+//@   modifies nothing
+//@ trusted std:os.File.Close
+//@   params f
+//@   modifies nothing
+//@ trusted font/opentype.NewLoaders
+//@   modifies nothing
+//@ func footprintScanner.consume C16
+//@   mode int
+//@   ensures [one-entry] implies(result == nil, len(fa.dst) == old(len(fa.dst))+1)
+//@   ensures [entry-is-current] implies(result == nil, fa.dst[len(fa.dst)-1].modTime == mtimeOf(info))
+//@   loop 1 invariant [entry-header] ff.modTime == modTime && modTime == mtimeOf(info) && len(fa.dst) == old(len(fa.dst))
+//@   ensures [reuse-only-if-unchanged] implies(result == nil && old(has(fa.previousIndex, path)) && old(fa.previousIndex[path].modTime) == mtimeOf(info), sameslice(fa.dst[len(fa.dst)-1].footprints, old(fa.previousIndex[path].footprints)))
+//@   modifies unspecified
